@@ -105,6 +105,7 @@ package filters
 //@ func ASCIIHexDecode results (res, err)
 //@   property C05, C02
 //@   flags pure
+//@   ensures conforming_input_is_accepted: (forall k int :: {data[k]} 0 <= k && k < len(data) ==> wsByte(data[k]) || hexDigit(data[k]) || data[k] == '>') ==> !err
 //@   loop 0:
 //@     invariant 0 <= i && i <= len(data)
 //@     step white_space_ignored: wsByte(data[prev(i)]) ==> i == prev(i) + 1 && len(result) == prev(len(result))
